@@ -813,6 +813,8 @@ def m_decode(I, recv, args, kw):
     ok = z3.Function("utf8.valid", z3.StringSort(), z3.BoolSort())
     enc = z3.Function("utf8.encode", z3.StringSort(), z3.StringSort())
     b = _s(recv)
+    if z3.is_app(b) and b.decl().name() == "utf8.encode":
+        return pyops.mk_str(b.arg(0))    # decode(encode(s)) = s
     I.ctx.use("T-py:bytes.decode('utf-8') raises UnicodeDecodeError or returns some str; decode(encode(s)) = s")
     # decode(encode(s)) = s for terms of the form encode(s)
     if not I.ctx.decide(ok(b), "utf8-valid"):
